@@ -48,16 +48,16 @@ def check_positions(ob, o, kinds, kind_prefix, expect_tag, what, rec="witness_cl
     clones = [t for t in o.trace if t[0] == rec]
     want = [j for j, k in enumerate(kinds) if k == "P"]
     if len(clones) != len(want):
-        ob.fail("%s %s: %d redeemers for %d Plutus items" % (what, "".join(kinds), len(clones), len(want)))
+        ob.violation("%s %s: %d redeemers for %d Plutus items" % (what, "".join(kinds), len(clones), len(want)))
         return
     for t in clones:
         name = t[1]
         j = int(name[len(kind_prefix):].split(".")[0]) if name.startswith(kind_prefix) else None
         if j is None or kinds[j] != "P":
-            ob.fail("%s %s: redeemer attached to a non-Plutus item (%s)" % (what, "".join(kinds), name)); continue
+            ob.violation("%s %s: redeemer attached to a non-Plutus item (%s)" % (what, "".join(kinds), name)); continue
         ob.vc("%s %s: redeemer of item %d points at position %d" % (what, "".join(kinds), j, j), o.pc, t[2] == j)
         if tag_name(t[3]) != expect_tag:
-            ob.fail("%s: tag %s, expected %s" % (what, tag_name(t[3]), expect_tag))
+            ob.violation("%s: tag %s, expected %s" % (what, tag_name(t[3]), expect_tag))
     idx = [t[2] for t in clones]
     if len(idx) > 1:
         ob.vc("%s %s: no two script uses share a pointer" % (what, "".join(kinds)), o.pc, z3.Distinct(*idx))
